@@ -212,7 +212,7 @@ func init() {
 				var cs []fw.Case
 				nb := 8
 				if !ctx.Quick {
-					nb = 40
+					nb = 200
 				}
 				for _, f := range []string{"native", "plain"} {
 					for oi := range c08Ops {
@@ -247,7 +247,7 @@ func init() {
 				// all operations interleaved on ONE chip in ONE circuit under the in-line faces
 				nm := 2
 				if !ctx.Quick {
-					nm = 30
+					nm = 120
 				}
 				for i := 0; i < nm; i++ {
 					cs = append(cs, fw.Case{ID: fmt.Sprintf("native/mixed/%d", i), Kind: "commit", P: map[string]any{"face": "native"}})
